@@ -200,6 +200,8 @@ func (instr *InstrActions) Len() (n uint16) {
 }
 
 func (instr *InstrActions) MarshalBinary() (data []byte, err error) {
+	// An action may have grown since it was added (e.g. a conntrack action given a nat action afterwards).
+	instr.Length = instr.Len()
 	data, err = instr.InstrHeader.MarshalBinary()
 
 	b := make([]byte, 4)
